@@ -22,7 +22,7 @@ RULE = ('one evaluation = one simulated run over a seeded pair of selector confi
         '(accepted or refused) were judged; distinct = distinct (relation of the two sides entries, protocol / port pattern, family, mode pair)')
 COMPONENTS = {'real': ['message.py (TrafficSelector.is_subset, from_network, get_network, get_port)', 'ikesa.py (_get_ipsec_configuration, rekey '
                        'selector check, mode checks on both roles, initiator check of the response)', 'xfrm.py (selectors given to the kernel)'],
-              'stub': ['set-of-packets interpretation of selectors (sim/wiretap.ts_subset)', 'wiretap', 'kernel model', 'independent configuration reader']}
+              'stub': ['active reference responder sim/refpeer.py in place of the second daemon (batch refpeer)', 'set-of-packets interpretation of selectors (sim/wiretap.ts_subset)', 'wiretap', 'kernel model', 'independent configuration reader']}
 ASSUMPTIONS = ['widened / mode-flipped RESPONSES and non-CIDR or multi-selector OFFERS need an active peer (Byzantine interposer batch)',
                'a refusal is judged only when NO entry of the responder could admit the request in the requested mode']
 EXPECT_REACH = ['children_judged', 'rekeys_judged', 'refusals_expected', 'relation.equal', 'relation.a_wider', 'relation.b_wider', 'relation.overlap',
